@@ -96,3 +96,41 @@ package container
 //@     invariant below(b[:e], v)
 //@     invariant forall k in 0..len(ret) :: mem(a[:@i1], ret[k]) && !mem(b, ret[k])
 //@     invariant forall k in 0..@i1 :: !mem(b, a[k]) ==> mem(ret, a[k])
+
+//@ pred isUnion(r []int, a []int, b []int) = subsetOf2(r, a, b) && subsetOf(a, r) && subsetOf(b, r)
+//@ pred isInter(r []int, a []int, b []int) = (forall k in 0..len(r) :: mem(a, r[k]) && mem(b, r[k])) && (forall k in 0..len(a) :: mem(b, a[k]) ==> mem(r, a[k]))
+//@ pred isDiff(r []int, a []int, b []int) = (forall k in 0..len(r) :: mem(a, r[k]) && !mem(b, r[k])) && (forall k in 0..len(a) :: !mem(b, a[k]) ==> mem(r, a[k]))
+
+//@ func IntSet.Empty
+//@   ensures result == (len(s.Set) == 0 && !s.Inverse)
+
+//@ func IntSet.Complement
+//@   ensures result.Inverse == !s.Inverse && sameslice(result.Set, s.Set)
+
+// Merge: the view of the result is the union of the views, case by case on the Inverse flags
+// (a co-finite set is represented by the sorted slice of the integers it excludes).
+//@ func Merge
+//@   requires sortedStrict(a.Set) && sortedStrict(b.Set)
+//@   requires disjoint(reuse, a.Set) && disjoint(reuse, b.Set)
+//@   modifies reuse[0:cap(reuse)]
+//@   ensures sortedStrict(result.Set)
+//@   ensures !a.Inverse && !b.Inverse ==> !result.Inverse && isUnion(result.Set, a.Set, b.Set)
+//@   ensures a.Inverse && b.Inverse ==> result.Inverse && isInter(result.Set, a.Set, b.Set)
+//@   ensures a.Inverse && !b.Inverse ==> result.Inverse && isDiff(result.Set, a.Set, b.Set)
+//@   ensures !a.Inverse && b.Inverse ==> result.Inverse && isDiff(result.Set, b.Set, a.Set)
+
+//@ func Intersect
+//@   requires sortedStrict(a.Set) && sortedStrict(b.Set)
+//@   requires disjoint(reuse, a.Set) && disjoint(reuse, b.Set)
+//@   modifies reuse[0:cap(reuse)]
+//@   ensures sortedStrict(result.Set)
+//@   ensures !a.Inverse && !b.Inverse ==> !result.Inverse && isInter(result.Set, a.Set, b.Set)
+//@   ensures a.Inverse && b.Inverse ==> result.Inverse && isUnion(result.Set, a.Set, b.Set)
+//@   ensures a.Inverse && !b.Inverse ==> !result.Inverse && isDiff(result.Set, b.Set, a.Set)
+//@   ensures !a.Inverse && b.Inverse ==> !result.Inverse && isDiff(result.Set, a.Set, b.Set)
+
+//@ func IntSet.Equals
+//@   ensures result <==> (s.Inverse == oth.Inverse && len(s.Set) == len(oth.Set) && forall k in 0..len(s.Set) :: s.Set[k] == oth.Set[k])
+//@   loop 1:
+//@     invariant 0 <= @i && @i <= len(s.Set) && len(s.Set) == len(oth.Set) && s.Inverse == oth.Inverse
+//@     invariant forall k in 0..@i :: s.Set[k] == oth.Set[k]
